@@ -33,6 +33,8 @@ checks = {
    text="Held on the executions observed; all setConfig call sequences of length 3 (quick) / 4 (thorough) for 1..3 Alphabet keys over {stranger, members} x 2 ids x gaps {0,1,20,21} are executed on the real contract, plus PRNG histories for 1..7 keys over cheque, alphabetUpdate, candidate removal; the model names the invocation in which each decision fires and the effect/notification must appear exactly there; strangers must never count.", ref="§3 C17"),
  "C18": dict(tech="runtime monitoring: exhaustive small-scope input enumeration through read-only invocations of the real contract, judged by independent predicates (names) and a MUST/MAY sandwich over net/netip (addresses)",
    text="Held on the executions observed; the finite scope named in the quantifier (all strings of length <= 5 quick / <= 6 thorough over the reduced alphabet, complete address mutation lists) is executed completely, plus boundary lengths and up to a million grammar-biased random strings; a sample of refusals is submitted as real transactions and must leave an empty storage diff.", ref="§3 C18"),
+ "C19": dict(tech="runtime monitoring: conservation (ledger identity) monitor over native GAS Transfer notifications and balances after every transaction; exact payout oracle for Alphabet emit",
+   text="Held on the executions observed: the NeoFS contract's GAS balance is compared after every transaction with the model (received - approved cheques) and with the sum of native Transfer events; deposits, withdraw fees (once to Processing / once per Alphabet key), candidate fees and cheques are checked for exact amounts, events and refusals in both Notary modes; emit's outgoing multiset and all balance deltas equal floor(g/2) and floor((g-floor(g/2))*7/8/N) with conservation; Proxy/Processing/Alphabet refuse NEO (except Alphabet), a foreign NEP-17 token and direct callback calls.", ref="§3 C19"),
  "C20": dict(tech="runtime monitoring: multimap reference models of five stores; every getter/lister read for every pool element after every operation; known-finding matcher for prefix-scan aliasing",
    text="Held on the executions observed, with three recorded known findings (prefix-scan aliasing of variable-length epoch encodings in Reputation, Audit and container estimations, see KNOWN_FINDINGS.json): puts over prefix-related epochs/ids/keys, clean-up boundaries, access rules (previous network map, Inner Ring membership, Alphabet) are compared with exact-store models; any discrepancy the aliasing matcher does not explain completely is a VIOLATION.", ref="§3 C20"),
 }
